@@ -117,12 +117,27 @@ def run_history(a5, gen, state, fresh_mod, rew, spec, ctx, repo, pyc):
     mode = rnd.choice(('cold', 'partial', 'warm'))
     if mode == 'cold':
         rew.rewind()
-    calls = [gen_call(rnd, a5, gen) for _ in range(spec['calls'])]
+    groups = []
+    while sum(len(g) for g in groups) < spec['calls']:
+        if rnd.random() < 0.12:
+            # two or three lookups that straddle one frame point (face edge midpoint / vertex / centre), executed back to back:
+            # consecutive lookups on both sides of a face boundary are where 'remember the previous answer' shortcuts go wrong
+            i = rnd.randrange(62)
+            r = rnd.choice((0, 1, rnd.randint(20, 29), rnd.randint(20, 29), rnd.randint(2, 19)))
+            g = []
+            for _ in range(rnd.choice((2, 3))):
+                p = gen.p_frame(rnd, i, -9, -4)
+                g.append(('lonlat_to_cell', [[float(p[0]), float(p[1])], r]))
+            groups.append(g)
+            ctx.count('straddling_lookup_groups')
+        else:
+            groups.append([gen_call(rnd, a5, gen)])
     if mode == 'cold':
         rew.rewind()  # generation warmed the caches again
     results = {}
+    rnd.shuffle(groups)
+    calls = [c for g in groups for c in g]
     order = list(range(len(calls)))
-    rnd.shuffle(order)
     for step, i in enumerate(order):
         key = repr(calls[i])
         if mode == 'partial' and rnd.random() < 0.3:
@@ -146,6 +161,7 @@ def run_history(a5, gen, state, fresh_mod, rew, spec, ctx, repo, pyc):
     # fresh-interpreter oracle for a subset of distinct calls, one interpreter per call
     distinct = list({repr(c): c for c in calls}.values())
     rnd.shuffle(distinct)
+    distinct.sort(key=lambda c: 0 if (c[0] == 'lonlat_to_cell' and any(c in g for g in groups if len(g) > 1)) else 1)
     for c in distinct[:spec['fresh_per_history']]:
         try:
             fr = fresh_mod.run_calls([list(c)], repo, pyc)[0]
